@@ -109,7 +109,7 @@ def gen_program(rng, seed, tier):
     if kind in ("qact", "mixed"):
         operands = [{"kind": "qact", "qtype": rng.choice(["qint8", "qint8", "qfloat8_e4m3fn", "qfloat8_e5m2"]), "shape": shape, "dtype": dtype, "mag": 10 ** rng.uniform(-2, 2), "tight": rng.random() < 0.25}]
     elif kind == "qweight8":
-        shape = [rng.choice([2, 3, 4, 6]), rng.choice([2, 4, 6, 8])]
+        shape = [rng.choice([1, 2, 3, 4, 6]), rng.choice([1, 2, 4, 6, 8])]
         operands = [{"kind": "qweight", "qtype": rng.choice(["qint8", "qfloat8_e4m3fn", "qfloat8_e5m2"]), "shape": shape, "dtype": dtype, "axis": rng.choice([0, -1])}]
     elif kind == "qbits":
         shape = [rng.choice([2, 4, 5]), rng.choice([4, 8, 16])]
@@ -324,6 +324,51 @@ def mover_correspondence(ck, tier):
                 ck.corr_mismatch.append({"file": f"movers_{s0}.v", "case": cases[s0 + k], "torch": res[s0 + k]["plain"]})
 
 
+def sources_audit(ck, tier):
+    """C06 for quantized tensors that do not come from an op program: quantization with size-1 axes followed by
+    rank-changing ops, freezing, deserialization into unfrozen / frozen targets of the same or another dtype"""
+    rng = ck.rng
+    weights = []
+    shapes = [[1, 8], [8, 1], [1, 1], [4, 6], [1, 4, 6], [6, 1, 2], [1], [5]]
+    for i, sh in enumerate(shapes):
+        for qt in ("qint8", "qfloat8_e4m3fn", "qint4"):
+            for axis in (0, -1):
+                if qt == "qint4" and len(sh) < 2:
+                    continue
+                weights.append({"seed": ck.seed + 17 * i + axis, "shape": sh, "qtype": qt, "axis": axis, "dtype": rng.choice(["float32", "float16", "bfloat16"])})
+    reload_ = []
+    for k, wq in enumerate(["qint8", "qfloat8_e4m3fn", "qint4", "qint2"]):
+        for src_dt, tgt_dt in (("float32", "float32"), ("float16", "float32"), ("float32", "float16"), ("bfloat16", "bfloat16")):
+            for tf in (False, True):
+                if tier == "quick" and rng.random() < 0.4:
+                    continue
+                reload_.append({"seed": ck.seed + 300 + k, "in": rng.choice([16, 128]), "weights": wq, "dtype": src_dt, "target_dtype": tgt_dt, "src_frozen": True, "target_frozen": tf, "assign": False})
+    res = ck.impl("qsources", {"weights": weights, "reload": reload_}, timeout=1500)
+    if isinstance(res, dict):
+        ck.violation("sources worker crashed: " + res.get("stderr", "")[-300:], {"stderr": res.get("stderr")})
+        return
+    for r in res:
+        c = r["case"]
+        ck.count("source", r["what"].split(" ")[0])
+        if "raised" in r:
+            # quantization along an axis may legitimately be refused (ValueError); anything else on these valid calls is reported
+            if r["what"] in ("quantize_weight",) and r["raised"] == "ValueError":
+                continue
+            if r["what"].startswith("op "):
+                continue  # validity of an op is judged against its float twin by the program runs
+            ck.violation(f"{r['what']} raised {r['raised']} ({json.dumps(c)[:120]})", {"case": c, "result": r})
+            continue
+        m = r["meta"]
+        ctx = {"case": c, "op": r["what"], "module": r.get("module")}
+        audit_meta(ck, m, ctx)
+        if m.get("cls") in ("QBytesTensor", "QBitsTensor") and "ref_shape" in m and "deq_shape" in m and m["deq_shape"] != m["ref_shape"]:
+            ck.violation(f"{r['what']} on a quantized weight of shape {c['shape']} (axis {c['axis']}): dequantized result has shape {m['deq_shape']}, the op on the dequantized weight gives {m['ref_shape']}", ctx | {"meta": m})
+        if r["what"].startswith("load_state_dict") and m.get("cls") in ("QBytesTensor", "QBitsTensor"):
+            if m.get("codes_equal_saved") is False or m.get("scale_equal_saved") is False:
+                ck.violation(f"{r['what']} ({c['weights']}, {c['dtype']} -> {c['target_dtype']}): the loaded weight does not hold the saved codes / scales", ctx | {"meta": m})
+        ck.case(("source", r["what"], json.dumps(c, sort_keys=True)), nontrivial=True)
+
+
 def run(pid, tier):
     ck = Check(pid, tier)
     ck.coverage["rule"] = (
@@ -336,6 +381,8 @@ def run(pid, tier):
     broken = ck.stage_a(errs, ["GenOps.v"], "TieOps.v", f"{pid}.v", tie_text=gen_ops.tie_text())
     if not any(o[0].startswith("compile:") for o in broken):
         mover_correspondence(ck, tier)
+    if pid == "C06":
+        sources_audit(ck, tier)
     rng = ck.rng
     nprog = 400 if tier == "quick" else 6000
     progs = [gen_program(rng, ck.seed * 100000 + i, tier) for i in range(nprog)]
@@ -359,6 +406,11 @@ def run(pid, tier):
         {"operands": [act("qfloat8_e4m3fn", dtype="float32")], "steps": [{"op": "softmax", "args": [{"reg": 0}]}]},
         {"operands": [act("qfloat8_e4m3fn", scale=0.05), act("qfloat8_e4m3fn", scale=0.05)], "steps": [{"op": "lt", "args": [{"reg": 0}, {"reg": 1}]}]},
         {"operands": [act(scale=0.05), act(scale=0.05)], "steps": [{"op": "lt", "args": [{"reg": 0}, {"reg": 1}]}]},
+        # comparisons across signed zeros (codes +0 / -0 of the float8 types, 0 of qint8): -0.0 < +0.0 is False
+        {"operands": [act("qfloat8_e4m3fn", scale=0.05, zeros=1), act("qfloat8_e4m3fn", scale=0.05, zeros=2)], "steps": [{"op": "lt", "args": [{"reg": 0}, {"reg": 1}]}]},
+        {"operands": [act("qfloat8_e5m2", scale=0.05, zeros=2), act("qfloat8_e5m2", scale=0.05, zeros=1)], "steps": [{"op": "lt", "args": [{"reg": 0}, {"reg": 1}]}]},
+        {"operands": [act("qfloat8_e4m3fn", scale=0.05, zeros=3), act("qfloat8_e4m3fn", scale=0.05, zeros=4)], "steps": [{"op": "lt", "args": [{"reg": 0}, {"reg": 1}]}]},
+        {"operands": [act(scale=0.05, zeros=1), act(scale=0.05, zeros=2)], "steps": [{"op": "lt", "args": [{"reg": 0}, {"reg": 1}]}]},
         {"operands": [act()], "steps": [{"op": "copy_into_plain", "args": [{"reg": 0}]}]},
         # a 0-dim quantized tensor (an element of a 1-D activation) as a multiplicand, on either side and against per-axis / plain operands
         {"operands": [{"kind": "qact", "qtype": "qint8", "shape": [6], "dtype": "float32"}, {"kind": "qact", "qtype": "qint8", "shape": [5], "dtype": "float32"}],
@@ -378,6 +430,10 @@ def run(pid, tier):
         {"operands": [act()], "steps": [{"op": "transpose_dd", "args": [{"reg": 0}, {"lit": 1}]}]},
         # copies own their payload
         {"operands": [act()], "steps": [{"op": "to_dtype", "args": [{"reg": 0}, {"lit": "float16"}]}]},
+        # histories with an in-place write after a copy / dtype move: the earlier result must keep its values
+        {"operands": [act(scale=0.05), act(scale=0.05)], "steps": [{"op": "to_dtype_then_overwrite", "args": [{"reg": 0}, {"lit": "float16"}, {"reg": 1}]}]},
+        {"operands": [act("qfloat8_e4m3fn", scale=0.05), act("qfloat8_e4m3fn", scale=0.05)], "steps": [{"op": "to_dtype_then_overwrite", "args": [{"reg": 0}, {"lit": "bfloat16"}, {"reg": 1}]}]},
+        {"operands": [act(scale=0.05), act(scale=0.05)], "steps": [{"op": "clone_then_overwrite", "args": [{"reg": 0}, {"reg": 1}]}]},
         {"operands": [{"kind": "qweight", "qtype": "qint8", "shape": [4, 6], "dtype": "float32", "axis": 0}], "steps": [{"op": "to_dtype", "args": [{"reg": 0}, {"lit": "bfloat16"}]}]},
         {"operands": [act()], "steps": [{"op": "clone", "args": [{"reg": 0}]}]},
         {"operands": [act(tight=True)], "steps": [{"op": "neg", "args": [{"reg": 0}]}]},
